@@ -48,24 +48,31 @@ def other_childlists_same(x, T, *except_):
                ForAll([p, i], Implies(And(h0.inP(T, p), ne(p), 0 <= i, i < h0.clen(p)), h.child(p, i) == h0.child(p, i)), patterns=[h.litem(h._children(p), i)]))
 
 
-def add_child_contract(c, typed):
+def add_child_contract(c, typed, pos_fn=None, target_fn=None, kind_fn=None, has_before=True):
+    """pos_fn(x, h0): documented insertion index; target_fn(x, h0): the parent that receives the child
+    (default: self); kind_fn(x): the documented kind of the new node (typed trees)."""
+    pos_fn = pos_fn or insert_pos
+    target_fn = target_fn or (lambda x, h0: x.a.self)
     c.result_tag = "node"
     c.modifies("_data", "_parent", "_tree", "_children", "_data_id", "_node_id", "_meta", "_kind", "ddom", "dref", "dlst", "dcard", "llen", "litem", "lalloc", "alloc", "cpos", "rank", "pos")
-    c.requires("wf, self in P(T)", lambda x: And(wf0(x), self_in_P(x)))
-    c.requires("an int position is within 0..len (documented-valid)", lambda x: And(0 <= x.a.before, x.a.before <= x.h0.clen(x.a.self)) if x.a.tag("before") == "int" else True)
-    c.requires("a `before` node belongs to the same tree", lambda x: x.h0.mem(x.T, x.a.before) if x.a.tag("before") == "ref" else True)
+    if has_before:
+        c.requires("wf, self in P(T)", lambda x: And(wf0(x), self_in_P(x)))
+        c.requires("an int position is within 0..len (documented-valid)", lambda x: And(0 <= x.a.before, x.a.before <= x.h0.clen(x.a.self)) if x.a.tag("before") == "int" else True)
+        c.requires("a `before` node belongs to the same tree", lambda x: x.h0.mem(x.T, x.a.before) if x.a.tag("before") == "ref" else True)
     c.requires("an explicit node_id is an int", lambda x: L.v_is_int(x.a.node_id) if x.a.tag("node_id") != "none" else True)
     if typed:
-        c.requires("kind is a str or None", lambda x: And(L.v_is_str(x.a.kind), x.a.kind != ANY_KIND) if x.a.tag("kind") != "none" else True)
+        c.requires("kind is a str or None", lambda x: And(L.v_is_str(x.a.kind), x.a.kind != ANY_KIND) if (x.a.has("kind") and x.a.tag("kind") != "none") else True)
 
     def did(x):
         return x.a.data_id if x.a.tag("data_id") != "none" else calc_id(x.h0, x.T, x.a.child)
 
     def clash(x):
-        h0, s = x.h0, x.a.self
+        h0, s = x.h0, target_fn(x, x.h0)
         return ex_int(0, h0.clen(s), lambda i: h0._data_id(h0.child(s, i)) == did(x))
 
     def bad_before(x):
+        if not has_before:
+            return z3.BoolVal(False)
         return x.h0._parent(x.a.before) != x.a.self if x.a.tag("before") == "ref" else z3.BoolVal(False)
 
     def bad_nid(x):
@@ -79,9 +86,9 @@ def add_child_contract(c, typed):
     c.may_raise("Exception", ensures=lambda x: And(obs_unchanged_but_fresh(x), wf1(x)), props=("C13",), name="calc_data_id callback raises")
 
     def post(x):
-        h0, h, s, n = x.h0, x.h, x.a.self, x.r
+        h0, h, s, n = x.h0, x.h, target_fn(x, x.h0), x.r
         T = x.T
-        idx = insert_pos(x, h0)
+        idx = pos_fn(x, h0)
         o = L.fresh("o", L.Ref)
         cs = [
             wf1(x),
@@ -95,12 +102,12 @@ def add_child_contract(c, typed):
             ForAll([o], Implies(h0.mem(T, o), h.mem(T, o)), patterns=[h.mem(T, o)]) if False else True,
         ]
         if typed:
-            cs.append(h._kind(n) == (x.a.kind if x.a.tag("kind") != "none" else str_const("child")))
+            cs.append(h._kind(n) == (kind_fn(x) if kind_fn else (x.a.kind if (x.a.has("kind") and x.a.tag("kind") != "none") else str_const("child"))))
         return And(*cs)
 
     c.ensures("new node at the documented position; wf; nothing else changed", post, props=("C01", "C02", "C03", "C04"))
     # ghost: sibling positions behind the insertion point shift up
-    c.ghost_exit["pos"] = lambda x, o: If(o == x.r, insert_pos(x, x.h0), If(And(x.h0._parent(o) == x.a.self, x.h0.mem(x.T, o), x.h0.pos(o) >= insert_pos(x, x.h0)), x.h0.pos(o) + 1, x.h0.pos(o)))
+    c.ghost_exit["pos"] = lambda x, o: If(o == x.r, pos_fn(x, x.h0), If(And(x.h0._parent(o) == target_fn(x, x.h0), x.h0.mem(x.T, o), x.h0.pos(o) >= pos_fn(x, x.h0)), x.h0.pos(o) + 1, x.h0.pos(o)))
 
 
 def obs_unchanged_but_fresh(x):
@@ -366,3 +373,176 @@ def _(c):
     # loop 1: `for n in new_parent._children or ()` -- no child of the target carries self's data_id
     c.loop(1).invariant = lambda x: fa_int(0, x.k, lambda j: x.h0._data_id(x.h0.child(target_of(x, x.h0), j)) != x.h0._data_id(x.a.self), lambda j: x.h0.litem(x.h0._children(target_of(x, x.h0)), j))
     c.loop(1).modifies = ()
+
+
+# ------------------------------------------------------------------ remove / remove_children (C01 C02 C04)
+def removed_set(h0, T, s, with_self):
+    """x is removed: a proper descendant of s (or s itself)."""
+    return (lambda o: in_subtree(h0, o, s)) if with_self else (lambda o: L.is_desc(h0, o, s))
+
+
+def survivors_frame(x, T, gone, extra_lists=()):
+    """every surviving node keeps identity, data, id, meta, kind, parent; every surviving parent
+    other than those in `extra_lists` keeps its child list (object and content)."""
+    h0, h = x.h0, x.h
+    o, i = L.fresh("o", L.Ref), L.fresh("i", L.I)
+    cs = []
+    for f in NODE_FIELDS:
+        if f == "_children" or z3.eq(h0.f(f), h.f(f)):
+            continue
+        cs.append(ForAll([o], Implies(Not(gone(o)), h.f(f)(o) == h0.f(f)(o)), patterns=[h.f(f)(o)]))
+    ne = lambda q: And(*[q != e for e in extra_lists]) if extra_lists else z3.BoolVal(True)  # noqa: E731
+    cs.append(ForAll([o], Implies(And(Not(gone(o)), ne(o)), h._children(o) == h0._children(o)), patterns=[h._children(o)]))
+    cs.append(ForAll([o], Implies(And(h0.inP(T, o), Not(gone(o)), ne(o)), h.clen(o) == h0.clen(o)), patterns=[h._children(o)]))
+    cs.append(ForAll([o, i], Implies(And(h0.inP(T, o), Not(gone(o)), ne(o), 0 <= i, i < h0.clen(o)), h.child(o, i) == h0.child(o, i)), patterns=[h.litem(h._children(o), i)]))
+    cs.append(fields_same_except(x, TREE_FIELDS, []))
+    return And(*cs)
+
+
+def members_minus(x, T, gone):
+    h0, h = x.h0, x.h
+    o = L.fresh("o", L.Ref)
+    return ForAll([o], h.mem(T, o) == And(h0.mem(T, o), Not(gone(o))), patterns=[h.mem(T, o)]) if False else \
+        And(ForAll([o], Implies(And(h0.mem(T, o), Not(gone(o))), h.mem(T, o)), patterns=[h0._node_id(o)]),
+            ForAll([o], Implies(h.mem(T, o), And(h0.mem(T, o), Not(gone(o)))), patterns=[h._node_id(o)]))
+
+
+@contract(NQ + "remove_children", props=("C01", "C02", "C04"))
+def _(c):
+    """ASSUMED here, decided by the bounded tier: the loop consumes the generator _iter_post()
+    while _unregister clears the yielded nodes (generator under mutation, DESIGN §3.2)."""
+    c.param("self", "node")
+    c.result_tag = "none"
+    c.modifies("_tree", "_parent", "_data", "_data_id", "_node_id", "_children", "_meta", "ddom", "dcard", "llen", "litem", "cpos")
+    c.assumed = True
+    c.assumed_reason = "generator consumed under mutation; contract checked by the bounded tier (native/props/mut.py, op remove_children)"
+    c.requires("wf", lambda x: And(wf0(x), self_in_P(x)))
+
+    def post(x):
+        h0, h, s, T = x.h0, x.h, x.a.self, x.T
+        gone = removed_set(h0, T, s, with_self=False)
+        o = L.fresh("o", L.Ref)
+        return And(wf1(x), h._children(s) == LNONE, members_minus(x, T, gone), survivors_frame(x, T, gone, extra_lists=(s,)),
+                   ForAll([o], Implies(Not(gone(o)), And(h.pos(o) == h0.pos(o), h.rank(o) == h0.rank(o))), patterns=[h.pos(o)]),
+                   ForAll([o], Implies(And(h0.mem(T, o), gone(o)), h._tree(o) == NONE), patterns=[h._tree(o)]))
+
+    c.ensures("all descendants unregistered, self is a leaf, everything else unchanged", post)
+
+
+@contract(NQ + "remove", props=("C01", "C02", "C04"))
+def _(c):
+    c.param("self", "node").param("keep_children", "false").param("with_clones", "false")
+    c.families = ("plain", "typed")
+    c.uses_lemmas = ("lemma.lemma_desc_rank",)
+    c.result_tag = "none"
+    c.modifies("_tree", "_parent", "_data", "_data_id", "_node_id", "_children", "_meta", "ddom", "dcard", "llen", "litem", "cpos", "pos")
+    c.requires("wf, self is a member", lambda x: And(wf0(x), self_member(x)))
+
+    def post(x):
+        h0, h, s, T = x.h0, x.h, x.a.self, x.T
+        op, me = h0._parent(s), h0.pos(s)
+        gone = removed_set(h0, T, s, with_self=True)
+        i = L.fresh("i", L.I)
+        n_op = h0.clen(op)
+        return And(
+            wf1(x),
+            members_minus(x, T, gone),
+            h.clen(op) == n_op - 1,
+            ForAll([i], Implies(And(0 <= i, i < n_op - 1), h.child(op, i) == If(i < me, h0.child(op, i), h0.child(op, i + 1))), patterns=[h.litem(h._children(op), i)]),
+            survivors_frame(x, T, gone, extra_lists=(op,)),
+            h._tree(s) == NONE, h._parent(s) == NONE,
+        )
+
+    c.ensures("self and its branch are gone; the old parent's list lost exactly self; everything else unchanged", post)
+    c.ghost_exit["pos"] = lambda x, o: If(And(o != x.a.self, x.h0._parent(o) == x.h0._parent(x.a.self), x.h0.pos(o) > x.h0.pos(x.a.self)), x.h0.pos(o) - 1, x.h0.pos(o))
+
+
+# ------------------------------------------------------------------ shortcuts (C04): instances of add_child's contract
+def shortcut(qual, typed, pos_fn, target_fn=None, kind_fn=None, member=False, with_kind=False):
+    @contract(qual, props=("C01", "C03", "C04", "C13"))
+    def _(c):
+        c.param("self", "node").param("child", "data")
+        if with_kind:
+            c.param("kind", "none", "kind")
+        c.param("deep", "none").param("data_id", "none", "id").param("node_id", "none")
+        c.families = ("typed",) if typed else ("plain",)
+        c.requires("wf", (lambda x: And(wf0(x), self_member(x))) if member else (lambda x: And(wf0(x), self_in_P(x))))
+        add_child_contract(c, typed, pos_fn=pos_fn, target_fn=target_fn, kind_fn=kind_fn, has_before=False)
+        c.ghost_exit.pop("pos", None)  # the witnesses established by the delegate's contract are kept
+    return _
+
+
+par = lambda x, h0: h0._parent(x.a.self)  # noqa: E731
+shortcut(NQ + "append_child", False, lambda x, h0: h0.clen(x.a.self))
+shortcut(NQ + "prepend_child", False, lambda x, h0: z3.IntVal(0))
+shortcut(NQ + "prepend_sibling", False, lambda x, h0: h0.pos(x.a.self), target_fn=par, member=True)
+shortcut(NQ + "append_sibling", False, lambda x, h0: h0.pos(x.a.self) + 1, target_fn=par, member=True)
+shortcut(TN + "append_child", True, lambda x, h0: h0.clen(x.a.self), with_kind=True)
+shortcut(TN + "prepend_child", True, lambda x, h0: z3.IntVal(0), with_kind=True)
+shortcut(TN + "prepend_sibling", True, lambda x, h0: h0.pos(x.a.self), target_fn=par, member=True, kind_fn=lambda x: x.h0._kind(x.a.self))
+shortcut(TN + "append_sibling", True, lambda x, h0: h0.pos(x.a.self) + 1, target_fn=par, member=True, kind_fn=lambda x: x.h0._kind(x.a.self))
+
+
+# ------------------------------------------------------------------ Tree-level delegates
+root_target = lambda x, h0: h0._root(x.a.self)  # noqa: E731
+
+
+def tree_add_child(qual, typed):
+    @contract(qual, props=("C01", "C02", "C03", "C04", "C13"))
+    def _(c):
+        c.param("self", "tree").param("child", "data")
+        if typed:
+            c.param("kind", "none", "kind")
+        c.param("before", "none", "bool", "int", "node").param("deep", "none").param("data_id", "none", "id").param("node_id", "none", "id")
+        c.families = ("typed",) if typed else ("plain",)
+        c.requires("wf", lambda x: wf0(x))
+        c.requires("an int position is within 0..len (documented-valid)", lambda x: And(0 <= x.a.before, x.a.before <= x.h0.clen(x.h0._root(x.a.self))) if x.a.tag("before") == "int" else True)
+        c.requires("a `before` node belongs to the same tree", lambda x: x.h0.mem(x.T, x.a.before) if x.a.tag("before") == "ref" else True)
+
+        def pos(x, h0):
+            r = h0._root(x.a.self)
+            t = x.a.tag("before")
+            n = h0.clen(r)
+            if t == "none":
+                return n
+            if t == "bool":
+                return If(x.a.before, 0, n)
+            if t == "int":
+                return x.a.before
+            return h0.pos(x.a.before)
+
+        add_child_contract(c, typed, pos_fn=pos, target_fn=root_target, has_before=False)
+        c.ghost_exit.pop("pos", None)
+        # `before=<node>` that is not a top-level node is refused
+        c.raises_.insert(0, __import__("pyvc.contract", fromlist=["Raises"]).Raises("ValueError", (lambda x: (x.h0._parent(x.a.before) != x.h0._root(x.a.self)) if x.a.tag("before") == "ref" else z3.BoolVal(False)), (lambda x: And(obs_unchanged(x), wf1(x))), ("C13", "C04"), "ValueError"))
+    return _
+
+
+tree_add_child("nutree.tree.Tree.add_child", False)
+tree_add_child("nutree.typed_tree.TypedTree.add_child", True)
+
+
+@contract("nutree.tree.Tree.clear", props=("C01", "C02", "C04"))
+def _(c):
+    c.param("self", "tree")
+    c.result_tag = "none"
+    c.modifies("_tree", "_parent", "_data", "_data_id", "_node_id", "_children", "_meta", "ddom", "dcard", "llen", "litem", "cpos")
+    c.requires("wf", lambda x: wf0(x))
+    o = L.fresh("o", L.Ref)
+    c.ensures("no members left, root has no children, tree well-formed", lambda x: And(wf1(x), x.h._children(x.h._root(x.a.self)) == LNONE, x.h.clen(x.h._root(x.a.self)) == 0,
+                                                                                     ForAll([o], Implies(x.h.mem(x.a.self, o), L.is_desc(x.h0, o, x.h0._root(x.a.self)) == False), patterns=[x.h._node_id(o)])))  # noqa: E712
+
+
+@contract("nutree.tree.Tree.__delitem__", props=("C01", "C02", "C04", "C09"))
+def _(c):
+    c.param("self", "tree").param("data", "data")
+    c.families = ("plain",)
+    c.result_tag = "none"
+    c.uses_lemmas = ("lemma.lemma_desc_rank",)
+    c.modifies("_tree", "_parent", "_data", "_data_id", "_node_id", "_children", "_meta", "ddom", "dcard", "llen", "litem", "lalloc", "cpos", "pos")
+    c.requires("wf", lambda x: wf0(x))
+    c.requires("bool keys excluded", lambda x: Not(L.v_is_bool(x.a.data)))
+    c.may_raise("KeyError", ensures=lambda x: unchanged_lists(x), props=("C09", "C13"))
+    c.may_raise("AmbiguousMatchError", ensures=lambda x: unchanged_lists(x), props=("C09", "C13"))
+    c.may_raise("Exception", ensures=None, name="callback raises")
+    c.ensures("tree well-formed afterwards", lambda x: wf1(x))
